@@ -671,6 +671,20 @@ func (fg *FG) specLoc(x *SExpr, env *Env) *Loc {
 		for k, fi := range index {
 			pt, ok := types.Unalias(cur.Ty).Underlying().(*types.Pointer)
 			if !ok {
+				// a struct-valued base: the location is interior to the location of the base
+				if s, isS := structOf(cur.Ty); isS {
+					var base *Loc
+					if k == 0 {
+						base = fg.specLoc(x.A, env)
+					} else {
+						base = loc
+					}
+					loc = fg.fieldLoc(base, cur.Ty, s, fi)
+					if k < len(index)-1 {
+						cur = Val{T: fg.load(env.st, loc), Ty: s.Field(fi).Type()}
+					}
+					continue
+				}
 				fg.fail("modifies %s: base is not a pointer", x)
 			}
 			s, _ := structOf(pt.Elem())
